@@ -136,7 +136,8 @@ class Text(JupyterMixin):
         tab_size: Optional[int] = 8,
         spans: List[Span] = None,
     ) -> None:
-        self._text = [strip_control_codes(text)]
+        text = strip_control_codes(text)
+        self._text = [text]
         self.style = style
         self.justify = justify
         self.overflow = overflow
